@@ -6,7 +6,7 @@
    * AddToFile over batches whose Create succeeds loses nothing; the outcome of [finish]. *)
 From Coq Require Import Lia Permutation Sorted.
 From ACH Require Import ValidOut ValidOutFacts.
-From ACH Require Import OffsetsFacts FileCreateAll ValidOffsets ValidOffsetsFacts.
+From ACH Require Import OffsetsFacts FileCreateAll FileCreateAllFacts ValidOffsets ValidOffsetsFacts.
 From ACH Require Import Bytes Fields Flatten FlattenFacts ValidFlatten ValidFlattenFacts FlattenFull.
 Open Scope Z_scope.
 
@@ -179,3 +179,246 @@ Proof.
 Qed.
 
 End Std.
+
+(* ------------------------------------------------------------------ AddToFile, File.Create, the sanity checks *)
+
+Lemma sumZ_app a b : sumZ (a ++ b) = sumZ a + sumZ b.
+Proof. induction a as [|x a IH]; cbn [app sumZ fold_right]; [reflexivity|]. unfold sumZ in *. rewrite IH. lia. Qed.
+
+Definition sum_ids (g : entry -> Z) (l : list batch) : Z := sumZ (map (fun p => g (snd p)) (ids l)).
+
+Lemma sum_ids_cons g b l : sum_ids g (b :: l) = sumZ (map g (b_entries b)) + sum_ids g l.
+Proof.
+  unfold sum_ids, ids. cbn [flat_map]. rewrite map_app, sumZ_app. f_equal.
+  unfold ids_of. rewrite map_map. reflexivity.
+Qed.
+
+Lemma sum_ids_perm g l l' : Permutation (ids l) (ids l') -> sum_ids g l = sum_ids g l'.
+Proof. intros P. unfold sum_ids. now apply sumZ_perm, Permutation_map. Qed.
+
+(* the consolidated batches in the order AddToFile sees them *)
+Definition pre (all : list batch) : list batch := map sort_entries (sort_by num_ltb all).
+
+Lemma pre_ids all : Permutation (ids (pre all)) (ids all).
+Proof. unfold pre. rewrite ids_map_sort_entries. apply ids_perm, sort_by_perm. Qed.
+
+Definition same_content (x y : batch) : Prop :=
+  b_kind y = b_kind x /\ b_sig y = b_sig x /\ b_entries y = b_entries x /\ b_adv y = b_adv x.
+
+Lemma renumber_content l : forall n x, In x l -> exists y, In y (renumber n l) /\ same_content x y.
+Proof.
+  induction l as [|b l IH]; intros n x Hx; [destruct Hx|]. cbn [renumber]. destruct Hx as [<-|Hx].
+  - eexists. split; [now left|]. unfold same_content. cbn. repeat split; reflexivity.
+  - destruct (IH (n + 1) x Hx) as (y & Hy & Hc). exists y. split; [now right|exact Hc].
+Qed.
+
+(* every batch handed to AddToFile is, up to its number, a batch of the result list of Flatten.v *)
+Lemma pre_in_out all x : In x (pre all) -> exists y, In y (finalize all) /\ same_content x y.
+Proof.
+  intros Hx. unfold finalize. fold (pre all). apply renumber_content. apply in_app_iff.
+  destruct (is_std x) eqn:E; [left|right]; apply filter_In; split; try exact Hx; try exact E.
+  unfold is_iat. now rewrite E.
+Qed.
+
+Section Finish.
+Variables (A : Arith.tables) (T : Offsets.otable) (TT : BuildIAT.ttable).
+Hypothesis HA : agree A T.
+Variables (hd : bytes -> hdrp) (sp : bytes -> stdp) (ip : bytes -> ipay) (ap : bytes -> apay).
+
+Local Notation toe := (to_off_entry sp).
+
+Definition cnt_e (e : entry) : Z := 1 + Z.of_N (e_addenda e).
+Definition cr_e (e : entry) : Z := Offsets.cr_amt T (toe e).
+Definition db_e (e : entry) : Z := Offsets.db_amt T (toe e).
+
+Lemma count_sum es : Offsets.count (map toe es) = sumZ (map cnt_e es).
+Proof.
+  unfold Offsets.count. induction es as [|e es IH]; cbn [map Offsets.sumf sumZ fold_right]; [reflexivity|].
+  unfold sumZ in IH. rewrite IH. unfold cnt_e, to_off_entry. cbn [Offsets.e_addenda]. reflexivity.
+Qed.
+
+Lemma credits_sum es : Offsets.credits T (map toe es) = sumZ (map cr_e es).
+Proof.
+  unfold Offsets.credits. induction es as [|e es IH]; cbn [map Offsets.sumf sumZ fold_right]; [reflexivity|].
+  unfold sumZ in IH. rewrite IH. reflexivity.
+Qed.
+
+Lemma debits_sum es : Offsets.debits T (map toe es) = sumZ (map db_e es).
+Proof.
+  unfold Offsets.debits. induction es as [|e es IH]; cbn [map Offsets.sumf sumZ fold_right]; [reflexivity|].
+  unfold sumZ in IH. rewrite IH. reflexivity.
+Qed.
+
+(* a standard (non-ADV) consolidated batch whose Create succeeds as C05's build says *)
+Definition created (x : batch) : Prop :=
+  b_kind x = Flatten.KStd /\ hd_adv (hd (b_sig x)) = false /\
+  exists b', create_std A T hd sp x = Some b' /\ ctl_ok T b' /\ Offsets.b_entries b' = map toe (b_entries x).
+
+(* AddToFile over such batches: nothing is skipped, the controls sum up to the sums over the entries *)
+Lemma add_all_created l : Forall created l ->
+  exists ss, add_all A T TT hd sp ip ap l = (ss, [])
+    /\ length ss = length l /\ existsb sb_is_adv ss = false
+    /\ zsum (fun s => Offsets.c_count (sb_ctl s)) ss = sum_ids cnt_e l
+    /\ zsum (fun s => Offsets.c_credit (sb_ctl s)) ss = sum_ids cr_e l
+    /\ zsum (fun s => Offsets.c_debit (sb_ctl s)) ss = sum_ids db_e l.
+Proof.
+  induction 1 as [|x l (Hk & Hadv & b' & Hc & (K1 & K2 & K3 & K4 & _) & He) _ IH].
+  - exists []. cbn. repeat split; reflexivity.
+  - destruct IH as (ss & Hss & Hlen & Hna & S1 & S2 & S3).
+    exists (SStd (std_hdr0 b') :: ss). cbn [add_all]. rewrite Hss, Hk, Hadv, Hc.
+    split; [reflexivity|]. split; [cbn [length]; now rewrite Hlen|]. split; [cbn [existsb sb_is_adv orb]; exact Hna|].
+    rewrite !sum_ids_cons. cbn [zsum sb_ctl std_hdr0 Offsets.b_ctl].
+    rewrite S1, S2, S3, K1, K3, K4, He, count_sum, credits_sum, debits_sum. repeat split; reflexivity.
+Qed.
+
+(* Flatten after the consolidation loop, on a file of standard batches each of whose
+   consolidated batches passes Create, and whose own control is the tabulation of its entries:
+   File.Create succeeds, none of the three ErrFlattenChanged... comparisons fires; the only
+   error left is FileControl.Validate on the new control (field widths) *)
+Theorem finish_created inf all :
+  i_hdr_ok inf = true -> all <> [] -> Forall created (pre all) ->
+  i_count inf = sum_ids cnt_e all -> i_debit inf = sum_ids db_e all -> i_credit inf = sum_ids cr_e all ->
+  let r := finish A T TT hd sp ip ap inf all in
+  (fst r = FOk \/ (fst r = FErrValidate /\ file_ctl_ok A (snd r) = false))
+  /\ length (af_std (snd r)) = length all /\ af_iat (snd r) = []
+  /\ Offsets.fc_count (af_ctl (snd r)) = i_count inf
+  /\ Offsets.fc_debit (af_ctl (snd r)) = i_debit inf
+  /\ Offsets.fc_credit (af_ctl (snd r)) = i_credit inf.
+Proof.
+  intros Hh Hne Hc E1 E2 E3. cbv zeta. unfold finish. fold (pre all).
+  destruct (add_all_created (pre all) Hc) as (ss & Hss & Hlen & Hna & S1 & S2 & S3). rewrite Hss.
+  assert (Hlen' : length ss = length all).
+  { rewrite Hlen. unfold pre. rewrite map_length. apply Permutation_length, sort_by_perm. }
+  assert (Hss_ne : ss <> []) by (intros ->; destruct all; [congruence|discriminate]).
+  set (f0 := mkaf (i_hdr_ok inf) (mkfo false false false) ss [] zero_fctl zero_fctl).
+  assert (Hf : file_create_all TT f0 = (true, created_std TT f0)).
+  { unfold file_create_all, created_std, f0. cbn [af_opts fo_skip_all fo_allow_missing_hdr fo_allow_zero af_hdr_ok af_std af_iat negb andb].
+    rewrite Hh. cbn [negb andb]. destruct ss as [|s0 ss']; [congruence|]. cbn [andb].
+    unfold file_is_adv. cbn [af_std]. rewrite Hna. cbn [negb]. now rewrite file_control_renumber. }
+  assert (Q1 : zsum (fun s => Offsets.c_count (sb_ctl s)) ss = i_count inf)
+    by (rewrite S1, (sum_ids_perm _ _ _ (pre_ids all)); now symmetry).
+  assert (Q2 : zsum (fun s => Offsets.c_debit (sb_ctl s)) ss = i_debit inf)
+    by (rewrite S3, (sum_ids_perm _ _ _ (pre_ids all)); now symmetry).
+  assert (Q3 : zsum (fun s => Offsets.c_credit (sb_ctl s)) ss = i_credit inf)
+    by (rewrite S2, (sum_ids_perm _ _ _ (pre_ids all)); now symmetry).
+  rewrite Hf. unfold created_std, f0, af_with.
+  cbn [af_std af_iat af_ctl af_actl renumber_i file_control_all Offsets.fc_count Offsets.fc_debit Offsets.fc_credit zsum].
+  rewrite !Z.add_0_r, Q1, Q2, Q3, !Z.eqb_refl. cbn [negb].
+  match goal with |- context [file_ctl_ok A ?f] => destruct (file_ctl_ok A f) eqn:Ev end; cbn [negb fst snd af_std af_iat af_ctl].
+  all: (split; [first [now left | right; split; [reflexivity|exact Ev]]|]).
+  all: cbn [Offsets.fc_count Offsets.fc_debit Offsets.fc_credit].
+  all: rewrite renumber_s_length; repeat split; try assumption.
+  all: unfold file_control_all; cbn [Offsets.fc_count Offsets.fc_debit Offsets.fc_credit zsum]; rewrite Z.add_0_r; assumption.
+Qed.
+
+End Finish.
+
+(* ------------------------------------------------------------------ FlattenBatches succeeds *)
+
+Section Succeeds.
+Variables (A : Arith.tables) (T : Offsets.otable) (TT : BuildIAT.ttable).
+Hypothesis HA : agree A T.
+Variables (hd : bytes -> hdrp) (sp : bytes -> stdp) (ip : bytes -> ipay) (ap : bytes -> apay).
+
+Local Notation fb := (f_batch A (hp_of hd) (fp_of sp)).
+Local Notation fe := (f_entry (fp_of sp)).
+Local Notation pok := (pair_ok A (hp_of hd) (fp_of sp)).
+
+(* a file of standard (non-ADV) batches *)
+Definition std_file (inp : list batch) : Prop :=
+  Forall (fun b => b_kind b = Flatten.KStd /\ b_entries b <> [] /\ b_adv b = []) inp.
+
+(* per (header, entry): the header is valid and not ADV, the trace number carries its ODFI *)
+Definition hdr_pair (p : bytes * entry) : Prop :=
+  hd_adv (hd (fst p)) = false /\ hd_ok (hd (fst p)) = true /\
+  Offsets.trace_odfi (tnum (e_trace (snd p))) = hd_odfi_z (hd (fst p)).
+
+Definition fits (b : batch) : Prop :=
+  Arith.calc_debit A Arith.KStd (map fe (b_entries b)) <= Arith.t_batch_limit A /\
+  Arith.calc_credit A Arith.KStd (map fe (b_entries b)) <= Arith.t_batch_limit A.
+
+Lemma run_kind order : Forall (fun b => b_kind b = Flatten.KStd) order ->
+  Forall (fun b => b_kind b = Flatten.KStd) (all_batches (run order)).
+Proof.
+  apply run_P. intros m b Hm _ _. now rewrite consume_kind.
+Qed.
+
+Theorem flatten_succeeds inf inp r :
+  std_file inp -> inp <> [] -> i_hdr_ok inf = true ->
+  kinds_consistent inp -> Forall traces_nodup inp ->
+  Forall (fun b => Arith.validate_batch A (fb b) = Arith.ROk) inp ->
+  Forall hdr_pair (ids inp) ->
+  i_count inf = sum_ids cnt_e inp -> i_debit inf = sum_ids (db_e T sp) inp -> i_credit inf = sum_ids (cr_e T sp) inp ->
+  cat_rule inp ->
+  (forall out, flatten_spec inp out -> Forall fits out) ->
+  flatten_full_spec A T TT hd sp ip ap inf inp r ->
+  (fst r = FOk \/ (fst r = FErrValidate /\ file_ctl_ok A (snd r) = false))
+  /\ af_iat (snd r) = []
+  /\ Offsets.fc_count (af_ctl (snd r)) = i_count inf
+  /\ Offsets.fc_debit (af_ctl (snd r)) = i_debit inf
+  /\ Offsets.fc_credit (af_ctl (snd r)) = i_credit inf.
+Proof.
+  intros Hstd Hne Hh Hk Hnd Hv Hhp E1 E2 E3 Hcat Hfit (order & all & Hadm & Hall & ->). unfold std_file in Hstd.
+  assert (Hs : flatten_spec inp (finalize all)) by (exists order, all; split; [exact Hadm|split; [exact Hall|reflexivity]]).
+  destruct Hadm as (Hperm & Hsorted).
+  assert (Hne' : Forall nonempty inp) by (eapply Forall_impl; [|exact Hstd]; intros x (_ & H & _); now left).
+  destruct (flatten_conservation inp _ Hk Hs) as (P1 & _).
+  destruct (flatten_wellformed inp _ Hnd Hne' Hs) as (Hw & _).
+  pose proof (flatten_pairs inp _ pok Hk Hs (valid_pairs_all A (hp_of hd) (fp_of sp) inp Hv)) as Hpok.
+  pose proof (flatten_pairs inp _ hdr_pair Hk Hs Hhp) as Hhdr.
+  pose proof (flatten_category inp _ Hk (cat_rule_uniform inp Hcat) Hs) as Hck.
+  assert (Hcok : forallb category_ok (finalize all) = true).
+  { unfold checked in Hck. destruct (forallb category_ok (finalize all)); [reflexivity|discriminate]. }
+  specialize (Hfit _ Hs).
+  (* permutation of the pairs of [all] and of the input *)
+  assert (Pall : Permutation (ids all) (ids inp)).
+  { destruct (run_ids order (kinds_consistent_perm _ _ (Permutation_sym Hperm) Hk)) as (R1 & _).
+    rewrite (ids_perm _ _ Hall), R1. now apply ids_perm. }
+  (* kinds *)
+  assert (Hkind : Forall (fun b => b_kind b = Flatten.KStd) (pre all)).
+  { assert (Ho : Forall (fun b => b_kind b = Flatten.KStd) order).
+    { apply Forall_forall. intros b Hb. eapply Permutation_in in Hb; [|exact Hperm].
+      rewrite Forall_forall in Hstd. now destruct (Hstd b Hb). }
+    pose proof (run_kind order Ho) as Hr. rewrite Forall_forall in Hr.
+    apply Forall_forall. intros x Hx. unfold pre in Hx. apply in_map_iff in Hx as (y & <- & Hy). cbn [sort_entries b_kind].
+    apply Hr. eapply Permutation_in; [exact Hall|]. eapply Permutation_in; [apply sort_by_perm|exact Hy]. }
+  (* every batch handed to AddToFile passes Create *)
+  assert (Hcr : Forall (created A T hd sp) (pre all)).
+  { apply Forall_forall. intros x Hx. destruct (pre_in_out all x Hx) as (y & Hy & Ky & Sy & Ey & Ay).
+    rewrite Forall_forall in Hw, Hpok, Hhdr, Hfit, Hkind. destruct (Hw y Hy) as (Hso & Hnon).
+    assert (Hyadv : b_adv y = []).
+    { destruct (b_adv y) as [|a q] eqn:E; [reflexivity|]. exfalso.
+      destruct (flatten_conservation inp _ Hk Hs) as (_ & P2).
+      assert (Hin : In (b_sig y, a) (adv_ids (finalize all))).
+      { unfold adv_ids. apply in_flat_map. exists y. split; [exact Hy|]. unfold adv_ids_of. rewrite E. now left. }
+      eapply Permutation_in in Hin; [|exact P2]. unfold adv_ids in Hin. apply in_flat_map in Hin as (z & Hz & Hin).
+      rewrite Forall_forall in Hstd. destruct (Hstd z Hz) as (_ & _ & Za). unfold adv_ids_of in Hin. now rewrite Za in Hin. }
+    assert (Hxne : b_entries x <> []) by (rewrite <- Ey; destruct Hnon as [H|H]; [exact H|congruence]).
+    assert (Hidx : forall e, In e (b_entries x) -> In (b_sig x, e) (ids (finalize all))).
+    { intros e He. rewrite <- Sy. apply in_ids; [exact Hy|now rewrite Ey]. }
+    destruct (b_entries x) as [|e0 es0] eqn:Ex; [congruence|]. rewrite <- Ex in *.
+    destruct (Hhdr _ (Hidx e0 ltac:(rewrite Ex; now left))) as (Hna & Hok & _). cbn [fst] in Hna, Hok.
+    split; [now apply Hkind|]. split; [exact Hna|].
+    destruct (create_std_spec A T HA hd sp x Hok Hxne) as (b' & Hc & He & Hctl & _).
+    - unfold traces_prefixed. apply Forall_forall. intros e He. now destruct (Hhdr _ (Hidx e He)) as (_ & _ & Ht).
+    - destruct (Hfit y Hy) as (F1 & F2). apply pairs_valid.
+      + apply Forall_forall. intros p Hp. unfold ids_of in Hp. apply in_map_iff in Hp as (e & <- & He). now apply Hpok, Hidx.
+      + exact Hxne.
+      + rewrite <- Ey. exact Hso.
+      + rewrite <- Ey. exact F1.
+      + rewrite <- Ey. exact F2.
+    - rewrite forallb_forall in Hcok. specialize (Hcok y Hy). unfold category_ok in *. now rewrite <- Ey, <- Ay.
+    - exists b'. split; [exact Hc|split; [exact Hctl|exact He]]. }
+  assert (Hall_ne : all <> []).
+  { intros ->. destruct inp as [|b0 inp']; [congruence|]. inversion Hstd as [|? ? (_ & Hb0 & _) _]; subst.
+    destruct (b_entries b0) as [|e0 q] eqn:E; [congruence|].
+    assert (Hin : In (b_sig b0, e0) (ids (b0 :: inp'))) by (apply in_ids; [now left|rewrite E; now left]).
+    eapply Permutation_in in Hin; [|apply Permutation_sym, Pall]. destruct Hin. }
+  destruct (finish_created A T TT hd sp ip ap inf all Hh Hall_ne Hcr) as (R1 & _ & R2 & R3 & R4 & R5).
+  - rewrite E1. symmetry. now apply sum_ids_perm.
+  - rewrite E2. symmetry. now apply sum_ids_perm.
+  - rewrite E3. symmetry. now apply sum_ids_perm.
+  - repeat split; assumption.
+Qed.
+
+End Succeeds.
